@@ -23,6 +23,62 @@ Fixpoint rf_cut (fuel spd : nat) (l : list N) : list (list N) * list N :=
            else let '(bl, r) := rf_cut f spd (skipn spd l) in (firstn spd l :: bl, r)
   end.
 
+(* ---- rf_cut ---- *)
+Lemma rf_cut_fuel : forall spd f1 f2 l, (0 < spd)%nat -> (length l < f1)%nat -> (length l < f2)%nat ->
+  rf_cut f1 spd l = rf_cut f2 spd l.
+Proof.
+  intros spd. induction f1 as [|f1 IH]; intros f2 l Hs H1 H2; [lia|].
+  destruct f2 as [|f2]; [lia|]. cbn [rf_cut].
+  destruct (Nat.ltb_spec (length l) spd) as [|Hge]; [reflexivity|].
+  rewrite (IH f2 (skipn spd l)); [reflexivity | exact Hs | rewrite skipn_length; lia | rewrite skipn_length; lia].
+Qed.
+Lemma rf_cut_small : forall fuel spd l, (length l < spd)%nat -> rf_cut (S fuel) spd l = ([], l).
+Proof. intros. cbn [rf_cut]. destruct (Nat.ltb_spec (length l) spd); [reflexivity|lia]. Qed.
+Lemma rf_cut_big : forall fuel spd l, (0 < spd)%nat -> (spd <= length l)%nat -> (length l < S fuel)%nat ->
+  rf_cut (S fuel) spd l = (firstn spd l :: fst (rf_cut (S (length (skipn spd l))) spd (skipn spd l)),
+                           snd (rf_cut (S (length (skipn spd l))) spd (skipn spd l))).
+Proof.
+  intros fuel spd l Hs Hge Hf.
+  remember (rf_cut (S (length (skipn spd l))) spd (skipn spd l)) as rest eqn:Er.
+  cbn [rf_cut]. destruct (Nat.ltb_spec (length l) spd); [lia|].
+  rewrite (rf_cut_fuel spd fuel (S (length (skipn spd l))) (skipn spd l)); [|exact Hs|rewrite skipn_length; lia|lia].
+  rewrite <- Er. destruct rest; reflexivity.
+Qed.
+(* the rest is shorter than a block; blocks and rest give the list back; every block is full *)
+Lemma rf_cut_spec : forall fuel spd l, (0 < spd)%nat -> (length l < fuel)%nat ->
+  let '(bl, r) := rf_cut fuel spd l in
+  (length r < spd)%nat /\ concat bl ++ r = l /\ Forall (fun b => length b = spd) bl.
+Proof.
+  induction fuel as [|fu IH]; intros spd l Hs Hf; [lia|]. cbn [rf_cut].
+  destruct (Nat.ltb_spec (length l) spd) as [Hlt|Hge].
+  - split; [exact Hlt|]. split; [reflexivity|constructor].
+  - specialize (IH spd (skipn spd l) Hs ltac:(rewrite skipn_length; lia)).
+    destruct (rf_cut fu spd (skipn spd l)) as [bl r]. destruct IH as (A & B & C).
+    split; [exact A|]. split.
+    + cbn [concat]. rewrite <- app_assoc, B. apply firstn_skipn.
+    + constructor; [rewrite firstn_length; lia|exact C].
+Qed.
+Lemma rf_cut_app : forall fuel spd l b, (0 < spd)%nat -> (length l < fuel)%nat ->
+  let '(bl, r) := rf_cut fuel spd l in
+  rf_cut (S (length (l ++ b))) spd (l ++ b) =
+  (bl ++ fst (rf_cut (S (length (r ++ b))) spd (r ++ b)), snd (rf_cut (S (length (r ++ b))) spd (r ++ b))).
+Proof.
+  induction fuel as [|fu IH]; intros spd l b Hs Hf; [lia|].
+  destruct (Nat.ltb_spec (length l) spd) as [Hlt|Hge].
+  - rewrite rf_cut_small by exact Hlt. cbn [app]. destruct (rf_cut (S (length (l ++ b))) spd (l ++ b)); reflexivity.
+  - specialize (IH spd (skipn spd l) b Hs ltac:(rewrite skipn_length; lia)).
+    rewrite (rf_cut_fuel spd fu (S (length (skipn spd l))) (skipn spd l)) in IH; [|exact Hs|rewrite skipn_length; lia|lia].
+    rewrite rf_cut_big; [|exact Hs|exact Hge|lia].
+    destruct (rf_cut (S (length (skipn spd l))) spd (skipn spd l)) as [bl r]. cbn [fst snd].
+    rewrite (rf_cut_big (length (l ++ b))); [|exact Hs|rewrite app_length; lia|lia].
+    assert (E1 : firstn spd (l ++ b) = firstn spd l).
+    { rewrite firstn_app. replace (spd - length l)%nat with 0%nat by lia. cbn. apply app_nil_r. }
+    assert (E2 : skipn spd (l ++ b) = skipn spd l ++ b).
+    { rewrite skipn_app. replace (spd - length l)%nat with 0%nat by lia. reflexivity. }
+    rewrite E1, E2, IH. reflexivity.
+Qed.
+
+
 Section RF_FSR.
 Variable summ1 : N -> list N -> wm_sentry.
 Variable summN : bool -> list wm_sentry -> wm_sentry.
@@ -116,61 +172,6 @@ Proof.
   destruct (rf_blk_eq_trans _ _ _ He1 H2) as (A1 & A2 & A3 & A4 & A5 & A6).
   cbn [wm_fx_set_fsr wm_fx_fsr wm_f_set_omit wm_f_set_block wm_f_alloc wm_f_sid0 wm_f_ts wm_f_count wm_f_buf wm_f_omit].
   rewrite A1, A2, A3, A6. repeat split.
-Qed.
-
-(* ---- rf_cut ---- *)
-Lemma rf_cut_fuel : forall spd f1 f2 l, (0 < spd)%nat -> (length l < f1)%nat -> (length l < f2)%nat ->
-  rf_cut f1 spd l = rf_cut f2 spd l.
-Proof.
-  intros spd. induction f1 as [|f1 IH]; intros f2 l Hs H1 H2; [lia|].
-  destruct f2 as [|f2]; [lia|]. cbn [rf_cut].
-  destruct (Nat.ltb_spec (length l) spd) as [|Hge]; [reflexivity|].
-  rewrite (IH f2 (skipn spd l)); [reflexivity | exact Hs | rewrite skipn_length; lia | rewrite skipn_length; lia].
-Qed.
-Lemma rf_cut_small : forall fuel spd l, (length l < spd)%nat -> rf_cut (S fuel) spd l = ([], l).
-Proof. intros. cbn [rf_cut]. destruct (Nat.ltb_spec (length l) spd); [reflexivity|lia]. Qed.
-Lemma rf_cut_big : forall fuel spd l, (0 < spd)%nat -> (spd <= length l)%nat -> (length l < S fuel)%nat ->
-  rf_cut (S fuel) spd l = (firstn spd l :: fst (rf_cut (S (length (skipn spd l))) spd (skipn spd l)),
-                           snd (rf_cut (S (length (skipn spd l))) spd (skipn spd l))).
-Proof.
-  intros fuel spd l Hs Hge Hf.
-  remember (rf_cut (S (length (skipn spd l))) spd (skipn spd l)) as rest eqn:Er.
-  cbn [rf_cut]. destruct (Nat.ltb_spec (length l) spd); [lia|].
-  rewrite (rf_cut_fuel spd fuel (S (length (skipn spd l))) (skipn spd l)); [|exact Hs|rewrite skipn_length; lia|lia].
-  rewrite <- Er. destruct rest; reflexivity.
-Qed.
-(* the rest is shorter than a block; blocks and rest give the list back; every block is full *)
-Lemma rf_cut_spec : forall fuel spd l, (0 < spd)%nat -> (length l < fuel)%nat ->
-  let '(bl, r) := rf_cut fuel spd l in
-  (length r < spd)%nat /\ concat bl ++ r = l /\ Forall (fun b => length b = spd) bl.
-Proof.
-  induction fuel as [|fu IH]; intros spd l Hs Hf; [lia|]. cbn [rf_cut].
-  destruct (Nat.ltb_spec (length l) spd) as [Hlt|Hge].
-  - split; [exact Hlt|]. split; [reflexivity|constructor].
-  - specialize (IH spd (skipn spd l) Hs ltac:(rewrite skipn_length; lia)).
-    destruct (rf_cut fu spd (skipn spd l)) as [bl r]. destruct IH as (A & B & C).
-    split; [exact A|]. split.
-    + cbn [concat]. rewrite <- app_assoc, B. apply firstn_skipn.
-    + constructor; [rewrite firstn_length; lia|exact C].
-Qed.
-Lemma rf_cut_app : forall fuel spd l b, (0 < spd)%nat -> (length l < fuel)%nat ->
-  let '(bl, r) := rf_cut fuel spd l in
-  rf_cut (S (length (l ++ b))) spd (l ++ b) =
-  (bl ++ fst (rf_cut (S (length (r ++ b))) spd (r ++ b)), snd (rf_cut (S (length (r ++ b))) spd (r ++ b))).
-Proof.
-  induction fuel as [|fu IH]; intros spd l b Hs Hf; [lia|].
-  destruct (Nat.ltb_spec (length l) spd) as [Hlt|Hge].
-  - rewrite rf_cut_small by exact Hlt. cbn [app]. destruct (rf_cut (S (length (l ++ b))) spd (l ++ b)); reflexivity.
-  - specialize (IH spd (skipn spd l) b Hs ltac:(rewrite skipn_length; lia)).
-    rewrite (rf_cut_fuel spd fu (S (length (skipn spd l))) (skipn spd l)) in IH; [|exact Hs|rewrite skipn_length; lia|lia].
-    rewrite rf_cut_big; [|exact Hs|exact Hge|lia].
-    destruct (rf_cut (S (length (skipn spd l))) spd (skipn spd l)) as [bl r]. cbn [fst snd].
-    rewrite (rf_cut_big (length (l ++ b))); [|exact Hs|rewrite app_length; lia|lia].
-    assert (E1 : firstn spd (l ++ b) = firstn spd l).
-    { rewrite firstn_app. replace (spd - length l)%nat with 0%nat by lia. cbn. apply app_nil_r. }
-    assert (E2 : skipn spd (l ++ b) = skipn spd l ++ b).
-    { rewrite skipn_app. replace (spd - length l)%nat with 0%nat by lia. reflexivity. }
-    rewrite E1, E2, IH. reflexivity.
 Qed.
 
 (* ---- set_buf / flush ---- *)
